@@ -17,13 +17,21 @@ import (
 
 var int8T = reflect.TypeFor[int8]()
 
+type relDummy struct {
+	ecs.RelationMarker
+	V int32
+}
+
 // dummyType k (0-based) is [k+1]int8: distinct types of distinct sizes.
 func dummyType(k int) reflect.Type { return reflect.ArrayOf(k+1, int8T) }
 
+var lastPanic any
+
 func tryDo(f func()) (panicked bool) {
 	defer func() {
-		if recover() != nil {
+		if r := recover(); r != nil {
 			panicked = true
+			lastPanic = r
 		}
 	}()
 	f()
@@ -101,6 +109,17 @@ func registryCase(n, order int) (steps int, v *drv.Violation) {
 			}
 		}
 	}
+	// a relation component registered last: a rejected registration must not disturb it
+	relLast := order == 0 && n >= 1 && n < MaxComps-1
+	var relID ecs.ID
+	if relLast {
+		relID = ecs.ComponentID[relDummy](w)
+		if int(relID.Index()) != n {
+			return fail("relation type registered as #%d got ID %d", n, relID.Index())
+		}
+		ids = append(ids, relID)
+		n++
+	}
 	// locked world: registration must panic without consuming an ID
 	f0 := ecs.NewFilter0(w)
 	q := f0.Query()
@@ -122,6 +141,18 @@ func registryCase(n, order int) (steps int, v *drv.Violation) {
 		}
 	}
 	q.Close()
+	if relLast {
+		steps++
+		info, ok := ecs.ComponentInfo(w, relID)
+		if !ok || !info.IsRelation {
+			return fail("after a rejected registration on a locked world ComponentInfo(%d).IsRelation=%v ok=%v for a relation component", relID.Index(), info.IsRelation, ok)
+		}
+		tgt := w.NewEntity()
+		if tryDo(func() { w.Unsafe().NewEntityRel([]ecs.ID{relID}, ecs.RelID(relID, tgt)) }) {
+			return fail("creating an entity with relation component %d and a target panicked after a rejected registration", relID.Index())
+		}
+		w.RemoveEntities(ecs.NewFilter0(w).Batch(), nil)
+	}
 	if n < MaxComps {
 		steps++
 		var id ecs.ID
@@ -175,6 +206,20 @@ func registryCase(n, order int) (steps int, v *drv.Violation) {
 		}
 	}
 	u := w.Unsafe()
+	if relLast {
+		// the relation component needs a target: keep it out of the plain sets
+		var keep [][]int
+		for _, set := range sets {
+			has := false
+			for _, i := range set {
+				has = has || ids[i] == relID
+			}
+			if !has {
+				keep = append(keep, set)
+			}
+		}
+		sets = keep
+	}
 	for si, set := range sets {
 		steps++
 		idl := make([]ecs.ID, len(set))
@@ -183,7 +228,7 @@ func registryCase(n, order int) (steps int, v *drv.Violation) {
 		}
 		var e ecs.Entity
 		if tryDo(func() { e = u.NewEntity(idl...) }) {
-			return fail("creating an entity with component IDs %v panicked (%d types registered)", set, n)
+			return fail("creating an entity with component IDs %v panicked (%d types registered): %v", set, n, lastPanic)
 		}
 		// write a recognisable first byte into every component
 		for _, i := range set {
